@@ -41,6 +41,11 @@ def net(np, batch_data, characters):
         for n in range(N):
             row = np.full(C, -6.0 - 0.01 * t)
             row[c[n]] = 3.0 + (win[n, 5] % 7) * 0.1
+            if t % 5 == 2 and m[n] >= 1e-9:          # never over pure padding: padding frames stay confidently blank
+                # an ambiguous frame: two classes share the top score (posterior ~0.5 each) and a third lies 8.8 below them, i.e. at
+                # posterior 7.5e-5 — below the 1e-4 threshold of the sparse storage, but above 1e-4 *relative to the best class*
+                row[(c[n] + 1) % C] = row[c[n]]
+                row[(c[n] + 2) % C] = row[c[n]] - 8.8
             logits[n, t] = row
     texts = []
     for n in range(N):
